@@ -15,8 +15,8 @@ from typing import Union
 from harness.common import ASSUME, FAIL, PASS, check, tape_harness  # noqa: F401
 from harness import oracles as O
 from engine import verdicts as _V
-from harness.frames import (CO_COROUTINE, CO_GENERATOR, REPR_MSG, CodeView, FakeFrame, ListLogger, classify_exit,
-                            record_workload, representation_ok, residue, validate_contract)
+from harness.frames import (CO_COROUTINE, CO_GENERATOR, REPR_MSG, RETURN_OPS, YIELD_OP, CodeView, FakeFrame, ListLogger, classify_exit,
+                            record_workload, representation_ok, residue, seed_function, validate_contract)
 from harness.values import Grammar, build_value, show
 from vfix import funcs as F
 
@@ -94,15 +94,22 @@ FIXED_ENTRY = (1, "s", None, 2.5, True, (1,), [1], 3)
 
 
 def step_body(t, op, is_coro, k, depth_inflight=2, max_yields=2, rich=False):
-    """One transition of the real tracer from an arbitrary valid state."""
+    """One transition of the real tracer from an arbitrary valid state.
+
+    The pre-state is BUILT BY EVENTS (for each in-flight frame: its call event and 0..n yield/resume pairs), which reaches
+    exactly the states the invariant describes (one in-flight entry per started frame: function, entry types, union of the
+    yields so far) without touching the tracer's representation; the verdict is read from the LOG only: right after the
+    step, and after every frame that should be in flight has been finished ('drained').  Each prefix event is itself a
+    step of this harness from a smaller state, so histories of any length follow by induction on the number of events."""
     if not representation_ok():
         return _V.INCONCLUSIVE(REPR_MSG)
     ASSUME(k >= 0)
     logger = ListLogger()
-    admit = t.take(2) == 0  # verdict of the custom code filter for the target code object
+    admit = t.take(2) == 0  # verdict of the custom code filter for the TARGET code object (a verdict is a function of the code)
+    verdict = {}
 
     def code_filter(code):
-        return admit
+        return verdict.get(id(code), True)
 
     tracer = CallTracer(logger, k, code_filter, None)
     # ---- arbitrary valid pre-state: 0..depth_inflight in-flight frames
@@ -116,17 +123,23 @@ def step_body(t, op, is_coro, k, depth_inflight=2, max_yields=2, rich=False):
         ny = t.take(max_yields + 1)
         yields = [build_value(t, G_ATOM) for _ in range(ny)]
         fr = FakeFrame(CodeView(func.__code__), dict(entry))
-        tracer.cache[fr.f_code] = func
-        tr = CallTrace(func, {n: get_type(v, k) for n, v in entry.items()})
-        if yields:
-            tr.yield_type = _union_of(yields, k)  # the invariant's yield_type: union of the yields so far
-        tracer.traces[fr] = tr
+        seed_function(tracer, fr.f_code, func)
+        fr.f_code.co_code = [0]
+        tracer(fr, "call", None)
+        for y in yields:
+            fr.f_code.co_code = [YIELD_OP]
+            tracer(fr, "return", y)
+            tracer(fr, "call", None)
         frames.append(fr)
         models.append(_Model(func, entry, yields))
+    if logger.traces:
+        return check(False, lambda: f"{len(logger.traces)} trace(s) logged while {n_inflight} call(s) were only started / suspended")
     # ---- the step (only the dimensions the event can depend on are decoded)
     event = EVENTS[t.take(len(EVENTS))]
     target = t.take(n_inflight + 1)
     is_new = target == n_inflight
+    if not is_new:
+        ASSUME(admit)  # a frame in flight was admitted when it started, and the filter's verdict for a code object does not change
     relevant = admit and event in ("call", "return")
     arg = None
     if relevant and event == "return" and (rich or not is_new):
@@ -148,7 +161,8 @@ def step_body(t, op, is_coro, k, depth_inflight=2, max_yields=2, rich=False):
         locs = dict(entry)
         locs["zz_local"] = 0  # a local that is not a parameter must never be recorded
         fr = FakeFrame(CodeView(func.__code__), locs)
-        tracer.cache[fr.f_code] = func if resolvable else None
+        seed_function(tracer, fr.f_code, func if resolvable else None, like=func)
+        verdict[id(fr.f_code)] = admit
     else:
         fr = frames[target]
         func, resolvable, entry = models[target].func, True, models[target].entry
@@ -157,21 +171,18 @@ def step_body(t, op, is_coro, k, depth_inflight=2, max_yields=2, rich=False):
         flags = (flags & ~CO_COROUTINE) | (CO_COROUTINE if is_coro else 0)
     fr.f_code.co_code = [op]
     fr.f_code.co_flags = flags
-    pre_keys = list(tracer.traces.keys())
-    pre_snap = {id(f): (tr.func, dict(tr.arg_types), tr.return_type, tr.yield_type) for f, tr in tracer.traces.items()}
 
     ret = tracer(fr, event, arg)
 
     if ret is not tracer:
         return check(False, "__call__ did not return the tracer")
     # ---- reference transition
-    exp_inflight = list(range(n_inflight))  # indices into frames still in flight
-    exp_new = None
+    still = list(range(n_inflight))  # indices of the pre-state frames that are still in flight after the step
+    started_new = False
     exp_log = None
     changed = None
     if admit and event == "call":
-        if is_new and resolvable:
-            exp_new = entry
+        started_new = is_new and resolvable
     elif admit and event == "return" and not is_new:
         kind = classify_exit(op, is_coro)
         m = models[target]
@@ -180,41 +191,49 @@ def step_body(t, op, is_coro, k, depth_inflight=2, max_yields=2, rich=False):
         elif kind == "await":
             pass
         elif kind == "return":
-            exp_inflight.remove(target)
+            still.remove(target)
             exp_log = (m.func, m.entry, True, arg, m.yields)
         else:
-            exp_inflight.remove(target)
+            still.remove(target)
             exp_log = (m.func, m.entry, False, None, m.yields)
-    # ---- compare
-    want_keys = [frames[i] for i in exp_inflight] + ([fr] if exp_new is not None else [])
-    got_keys = list(tracer.traces.keys())
-    if len(got_keys) != len(want_keys) or any(a is not b for a, b in zip(sorted(got_keys, key=id), sorted(want_keys, key=id))):
-        return check(False, lambda: f"in-flight frames after {event}@op{int(op)} (coro={bool(is_coro)}, admit={admit}, "
-                                    f"target={'new' if is_new else target}): {len(got_keys)} entries, expected {len(want_keys)}")
-    for i in exp_inflight:
-        tr = tracer.traces[frames[i]]
-        m = models[i]
-        ys = changed[1] if changed and changed[0] == i else m.yields
-        r = _same_trace(tr, m.func, m.entry, False, None, ys, k)
-        if r:
-            return check(False, lambda: f"in-flight trace #{i} after {event}@op{int(op)} (coro={bool(is_coro)}): {r}")
-    if exp_new is not None:
-        r = _same_trace(tracer.traces[fr], func, exp_new, False, None, [], k)
-        if r:
-            return check(False, lambda: f"new trace for {func.__qualname__}: {r}")
+    where = lambda: f"{event}@op{int(op)} (coro={bool(is_coro)}, admit={admit}, target={'new' if is_new else target})"  # noqa: E731
+    # ---- 1. the log right after the step
     if exp_log is None:
         if logger.traces:
-            return check(False, lambda: f"{len(logger.traces)} trace(s) logged on {event}@op{int(op)} (admit={admit}) but none expected")
+            return check(False, lambda: f"{len(logger.traces)} trace(s) logged on {where()} but none expected")
     else:
         if len(logger.traces) != 1:
-            return check(False, lambda: f"{len(logger.traces)} traces logged on final {event}@op{int(op)}, expected exactly one")
+            return check(False, lambda: f"{len(logger.traces)} traces logged on final {where()}, expected exactly one")
         r = _same_trace(logger.traces[0], *exp_log, k)
         if r:
             return check(False, lambda: f"logged trace on return@op{int(op)} (coro={bool(is_coro)}) value {show(arg)}: {r}")
-    if exp_log is not None and residue(tracer, fr):
-        return check(False, lambda: f"per-call state left in tracer.{residue(tracer, fr)[0]} after the call finished")
-    if not admit and (got_keys != pre_keys or logger.traces):
-        return check(False, "filter rejected the code but tracer state changed")
+        if residue(tracer, fr):
+            return check(False, lambda: f"per-call state left in tracer.{residue(tracer, fr)[0]} after the call finished")
+    # ---- 2. drain: finish every frame; exactly the frames that should still be in flight are logged, each once, faithfully
+    ret_op = sorted(RETURN_OPS)[0]
+    todo = [(frames[i], models[i].func, models[i].entry, (changed[1] if changed and changed[0] == i else models[i].yields), True) for i in range(n_inflight)
+            if i in still]
+    todo += [(frames[i], None, None, None, False) for i in range(n_inflight) if i not in still]
+    if is_new:
+        todo.append((fr, func, entry, [], started_new))
+    for dfr, dfunc, dentry, dyields, alive in todo:
+        before = len(logger.traces)
+        dfr.f_code.co_code = [ret_op]
+        tracer(dfr, "return", None)
+        new = logger.traces[before:]
+        if not alive:
+            if new:
+                return check(False, lambda: f"after {where()}: a frame that is not in flight (finished, rejected or never started) was logged when it returned")
+            continue
+        if len(new) != 1:
+            return check(False, lambda: f"after {where()}: finishing an in-flight call of {dfunc.__qualname__} logged {len(new)} traces (its state was lost or duplicated)")
+        r = _same_trace(new[0], dfunc, dentry, True, None, dyields, k)
+        if r:
+            return check(False, lambda: f"after {where()}: trace of the in-flight call of {dfunc.__qualname__}: {r}")
+    for dfr, *_rest in todo:
+        left = residue(tracer, dfr)
+        if left:
+            return check(False, lambda: f"per-call state left in tracer.{left[0]} after every call finished")
     return check(True)
 
 
